@@ -195,11 +195,13 @@ theorem G_assignment {p s ps} :
 
 /-- what the walk needs of `W`, of the tokens and of the nested parser -/
 structure Ctx (W : Pred) (T : Token → Prop) (np : NestedParse) : Prop where
-  /-- words are built from tokens satisfying `T` only -/
-  word : ∀ tok, T tok → Sat (expandword np tok) (G W)
+  /-- words are built from tokens satisfying `T` only, of type WORD / ASSIGNMENT_WORD -/
+  word : ∀ tok, T tok → (tok.is .WORD = true ∨ tok.is .ASSIGNMENT_WORD = true) →
+    Sat (expandword np tok) (G W)
   asg : ∀ p s ps, W (.word p s ps) → W (.assignment p s ps)
-  /-- the delimiter word of a here-document redirect -/
-  bare : ∀ tok, T tok → W (.word (tok.lexpos, tok.endlexpos) tok.valueStr [])
+  /-- the delimiter word of a here-document redirect (a WORD token) -/
+  bare : ∀ tok, T tok → tok.is .WORD = true →
+    W (.word (tok.lexpos, tok.endlexpos) tok.valueStr [])
   /-- a reserved-word / operator / pipe node with the span and the value of a reserved token -/
   res : ∀ tok w, T tok → Reserved tok → tok.value = .str w →
     W (.reservedword (tok.lexpos, tok.endlexpos) w) ∧ W (.operator (tok.lexpos, tok.endlexpos) w) ∧
@@ -222,6 +224,10 @@ variable {np : NestedParse} {args : List SVal}
 /-- the token in slot `i` (if it is one) is of a reserved type -/
 def ResSlot (args : List SVal) (i : Nat) : Prop :=
   ∀ t, args.getD (i - 1) .none = .tok t → Reserved t
+
+/-- the token in slot `i` (if it is one) is a WORD / ASSIGNMENT_WORD -/
+def WordSlot (args : List SVal) (i : Nat) : Prop :=
+  ∀ t, args.getD (i - 1) .none = .tok t → (t.is .WORD = true ∨ t.is .ASSIGNMENT_WORD = true)
 
 /-- every token among the arguments is of a reserved type or a WORD -/
 def PartToks (args : List SVal) : Prop :=
@@ -248,6 +254,15 @@ theorem sat_nodesAt (ha : ∀ a ∈ args, GV W T a) (i : Nat) (site : String) :
   have := slice_ok (np := np) ha i
   split
   · rename_i n h; rw [h] at this; exact Sat.pure this
+  · exact Sat.foreign trivial
+
+/-- the token in slot `i`, with its slot -/
+theorem sat_tokAt2 (ha : ∀ a ∈ args, GV W T a) (i : Nat) :
+    Sat (PCtx.tokAt ⟨np, args⟩ i) (fun t => T t ∧ args.getD (i - 1) .none = .tok t) := by
+  unfold PCtx.tokAt
+  have := slice_ok (np := np) ha i
+  split
+  · rename_i t h; rw [h] at this; exact Sat.pure ⟨this, h⟩
   · exact Sat.foreign trivial
 
 theorem sat_tokAt (ha : ∀ a ∈ args, GV W T a) (i : Nat) :
@@ -321,7 +336,8 @@ theorem sat_makeparts (hC : Ctx W T np) (hwf : ∀ t, T t → C12.TokWF t)
     · exact Sat.pure ⟨hr, GL_append.mpr ⟨hb, hav⟩⟩
     · rename_i t
       split
-      · exact Sat.bind (hC.word _ hav)
+      · rename_i hisw
+        exact Sat.bind (hC.word _ hav (Or.inl hisw))
           (fun w hw => Sat.pure ⟨hr, GL_append.mpr ⟨hb, GL_cons.mpr ⟨hw, GL_nil⟩⟩⟩)
       · rename_i hnw
         refine Sat.pure ⟨hr, ?_⟩
@@ -406,9 +422,9 @@ theorem G_asg_of_word (hC : Ctx W T np) {p s ps} (h : G W (.word p s ps)) : G W 
   rw [G_assignment]
   exact ⟨hC.asg p s ps h.1, h.2⟩
 
-theorem G_bare (hC : Ctx W T np) {tok : Token} (ht : T tok) :
+theorem G_bare (hC : Ctx W T np) {tok : Token} (ht : T tok) (hw : tok.is .WORD = true) :
     G W (.word (tok.lexpos, tok.endlexpos) tok.valueStr []) := by
-  rw [G_word]; exact ⟨hC.bare tok ht, fun _ => GL_nil⟩
+  rw [G_word]; exact ⟨hC.bare tok ht hw, fun _ => GL_nil⟩
 
 theorem G_of_head? {l : List Node} {n : Node} (hl : GL W l) (h : l.head? = some n) : G W n :=
   hl n (List.mem_of_head? h)
